@@ -225,6 +225,12 @@ def run_property(modname, tier, seed, replay=None, budget_s=None):
                exhaustive=(not agg["capped"]) and agg["cases_done"] == agg["cases_total"],
                cases_total=agg["cases_total"], cases_done=agg["cases_done"],
                known_findings_hit=sorted(known_hit), vacuity_problems=vac, **stats)
+    internal_caps = {k: v for k, v in stats.items() if isinstance(v, (int, float)) and v and
+                     (k.startswith("explorations_cut_by") or k == "unexpanded_points")}
+    if internal_caps:
+        cov["exhaustive"] = False
+        cov["cap"] = ("bounded exploration was cut inside some cases: " + json.dumps(internal_caps) +
+                      "; everything below those caps was explored completely")
     if agg["capped"]:
         cov["cap"] = f"wall-clock budget {budget_s}s hit after {agg['cases_done']}/{agg['cases_total']} top-level cases"
     if mod.LEVEL == "model_checking":
